@@ -35,6 +35,7 @@ import (
 	"strings"
 	"sync"
 	"sync/atomic"
+	"syscall"
 	"time"
 
 	. "vh/lib"
@@ -588,24 +589,35 @@ func pullGoroutines() int64 {
 	return cnt
 }
 
-// open client-side connections to the camera: sockets of this network namespace whose remote end is the
-// camera's listening port and that still belong to a process (inode != 0; a closed socket lingering in
-// FIN_WAIT / TIME_WAIT has inode 0).  The port is an ephemeral listener of this process, so every such
-// socket is one the pull client opened.
+// open client-side connections to the camera: the sockets among THIS process's file descriptors whose peer is
+// the camera's listening port (getpeername on every fd of /proc/self/fd).  The camera's own accepted sockets
+// have the client's ephemeral port as peer and the listener has none, so every hit is a socket the pull client
+// opened and has not closed.  (An earlier version parsed /proc/net/tcp: that listing covers every process of
+// the network namespace and is not a snapshot — it once showed two entries for one connection.)
 func clientConns(port int) int64 {
-	data, err := os.ReadFile("/proc/net/tcp")
+	ents, err := os.ReadDir("/proc/self/fd")
 	if err != nil {
 		return -1
 	}
-	want := fmt.Sprintf("0100007F:%04X", port)
 	n := int64(0)
-	for _, line := range strings.Split(string(data), "\n") {
-		f := strings.Fields(line)
-		if len(f) < 10 || f[2] != want {
+	for _, e := range ents {
+		fd, err := strconv.Atoi(e.Name())
+		if err != nil {
 			continue
 		}
-		if f[9] != "0" {
-			n++
+		sa, err := syscall.Getpeername(fd)
+		if err != nil {
+			continue
+		}
+		switch a := sa.(type) {
+		case *syscall.SockaddrInet4:
+			if a.Port == port && a.Addr == [4]byte{127, 0, 0, 1} {
+				n++
+			}
+		case *syscall.SockaddrInet6:
+			if a.Port == port {
+				n++
+			}
 		}
 	}
 	return n
@@ -716,8 +728,32 @@ func (w *world) routeURL(refuse bool) string {
 	return "rtsp://" + cred + host + p
 }
 
+// diagnostic (C20_DIAG=1): compare with the listing of /proc/net/tcp and report disagreements on stderr
+func procNetTCP(port int) (int64, string) {
+	data, _ := os.ReadFile("/proc/net/tcp")
+	want := fmt.Sprintf("0100007F:%04X", port)
+	n, hit := int64(0), ""
+	for _, line := range strings.Split(string(data), "\n") {
+		f := strings.Fields(line)
+		if len(f) >= 10 && f[2] == want && f[9] != "0" {
+			n++
+			hit += line + "\n"
+		}
+	}
+	return n, hit
+}
+
+var diag = os.Getenv("C20_DIAG") != ""
+
 func (w *world) resources() (conn, registered, counter, gor int64) {
 	conn = clientConns(w.cam.ln.Addr().(*net.TCPAddr).Port)
+	if diag {
+		if n, hit := procNetTCP(w.cam.ln.Addr().(*net.TCPAddr).Port); n != conn {
+			if again := clientConns(w.cam.ln.Addr().(*net.TCPAddr).Port); again == conn {
+				fmt.Fprintf(os.Stderr, "C20_DIAG fds=%d proc=%d\n%s", conn, n, hit)
+			}
+		}
+	}
 	if media.Get(w.path) != nil {
 		registered = 1
 	}
@@ -1117,6 +1153,14 @@ func replCase(c Val) Val {
 			}
 		}
 		wait(bound, func() bool {
+			// a consumer's Close is called from its own delivery goroutine, after the stream has dropped it:
+			// a consumer that is no longer attached to a live stream is awaited until its Close has come
+			for i := 0; i < 2; i++ {
+				if cons[i] != nil && atomic.LoadInt32(&cons[i].closes) == 0 &&
+					!(media.VerifStatus(st[i]) == media.StreamOK && st[i].ConsumerCount() > 0) {
+					return false
+				}
+			}
 			cn, _, k, g := w.resources()
 			return cn == exp && k == exp && g == exp
 		})
